@@ -113,6 +113,10 @@ class C20:
             env = {isl_: is_seq, ist_: False}
             it_ = peval(sh_item, env) if sh_item is not None else None
             vt = it_[1][1] if it_ is not None and it_[0] == "tuple" and len(it_[1]) == 2 else None
+            # the value reaches rasterio only where no rejection fired: a choice on a condition the call's path decides is that branch
+            known_ = set(conjuncts(peval(call.live, env)))
+            while vt is not None and vt[0] == "ite" and (vt[1] in known_ or NOT(vt[1]) in known_):
+                vt = vt[2] if vt[1] in known_ else vt[3]
             if vt is not None and vt[0] == "sub" and vt[2] == I and vt[1][0] == "bin" and vt[1][1] == "*":
                 # ([v] * n)[i] is v for every i < n
                 for lst_, n_ in ((vt[1][2], vt[1][3]), (vt[1][3], vt[1][2])):
